@@ -303,6 +303,7 @@ import re as _re
 import datetime as _dt
 import math as _math
 import decimal as _decimal
+COVERAGE = None     # {'lines': {module: {lineno}}, 'branches': {(module, lineno, col): {True, False}}} when a coverage run asks for it
 _PURE_LIBS = {'re': _re, 'datetime': _dt, 'math': _math, 'decimal': _decimal}
 import os as _os_mod      # noqa: E402
 import stat as _stat_mod  # noqa: E402
@@ -417,6 +418,14 @@ class Interp:
             self.out.value = r.exc
         return self.out
 
+    def _cov(self, node, outcome):
+        """Coverage of the package's decisions by the witness tables (tools/branch_coverage.py): which outcome of which test was seen."""
+        if COVERAGE is not None:
+            m_ = getattr(node, '_module', None)
+            if m_ is not None:
+                COVERAGE['branches'].setdefault((m_.name, node.lineno, node.col_offset), set()).add(bool(outcome))
+        return outcome
+
     def block(self, stmts):
         for s in stmts:
             try:
@@ -429,6 +438,10 @@ class Interp:
 
     def stmt(self, s):
         self.world.steps += 1
+        if COVERAGE is not None:
+            m_ = getattr(s, '_module', None)
+            if m_ is not None:
+                COVERAGE['lines'].setdefault(m_.name, set()).add(s.lineno)
         if self.world.steps > getattr(self.world, 'budget', 400000):
             raise Unmodelled(f"interpretation budget exceeded ({getattr(self.world, 'budget', 400000)} statements)")
         if isinstance(s, ast.Assign):
@@ -453,7 +466,7 @@ class Interp:
                 except TypeError:
                     raise ExcRaised(Ref('builtin:TypeError'))
         elif isinstance(s, ast.If):
-            if self.truth(self.ev(s.test)):
+            if self._cov(s.test, self.truth(self.ev(s.test))):
                 self.block(s.body)
             else:
                 self.block(s.orelse)
@@ -473,7 +486,7 @@ class Interp:
             # concrete execution of the loop (work lists ...): bounded, anything longer is not modelled
             n_iter = 0
             broke = False
-            while self.truth(self.ev(s.test)):
+            while self._cov(s.test, self.truth(self.ev(s.test))):
                 n_iter += 1
                 if n_iter > 2048:
                     raise Unmodelled(f'while-loop at line {s.lineno} runs more than 2048 iterations on the abstract input')
@@ -860,7 +873,7 @@ class Interp:
             res = None
             for v in n.values:
                 res = self.ev(v)
-                t = self.truth(res)
+                t = self._cov(v, self.truth(res))
                 if isinstance(n.op, ast.And) and not t:
                     return res
                 if isinstance(n.op, ast.Or) and t:
@@ -899,7 +912,7 @@ class Interp:
                 left = right
             return True
         if isinstance(n, ast.IfExp):
-            return self.ev(n.body) if self.truth(self.ev(n.test)) else self.ev(n.orelse)
+            return self.ev(n.body) if self._cov(n.test, self.truth(self.ev(n.test))) else self.ev(n.orelse)
         if isinstance(n, ast.Subscript):
             base = self.ev(n.value)
             if isinstance(n.slice, ast.Slice):
@@ -1644,7 +1657,7 @@ class Interp:
         saved = dict(self.env)
         for item in items:
             self.store(g.target, item)
-            if all(self.truth(self.ev(c)) for c in g.ifs):
+            if all(self._cov(c, self.truth(self.ev(c))) for c in g.ifs):
                 self._comp(gens, i + 1, emit)
         # comprehension variables do not leak
         for k in list(self.env):
